@@ -82,6 +82,16 @@ func Quoted(s string) *Val { return &Val{K: VQuoted, Src: `"` + s + `"`, S: s} }
 // Int makes an integer value.
 func Int(i int) *Val { return &Val{K: VInt, Src: strconv.Itoa(i), I: i} }
 
+// IntSrc makes an integer value from its source text (e.g. with leading zeros),
+// read as a decimal number.
+func IntSrc(src string) *Val {
+	i, err := strconv.Atoi(src)
+	if err != nil {
+		panic("gen.IntSrc: " + src)
+	}
+	return &Val{K: VInt, Src: src, I: i}
+}
+
 // Float makes a decimal value from its source text (which must parse).
 func Float(src string) *Val {
 	f, err := strconv.ParseFloat(src, 64)
